@@ -83,6 +83,12 @@ HARNESSES = [
     scenarios=[{'OP0': 0, 'OP1': 0, 'OP2': 2}], timeout=3600,
     desc='tbb::mutex, 2 lockers + 1 initial holder: notify_one wakes one sleeper, the other is woken by the next unlock',
     bounds={'threads': 3, 'free_rounds': 1, 'forced_rounds': 2, 'unroll': 1}),
+  H(name='addr_mutex_shared', unit='mtx3', harness='h_addr2.c', defines={'ROUNDS': 1, 'EXTRA': 2, 'MTX_WAIT_CLOSURE': MC},
+    scenarios=[{'WHICH': 0}, {'WHICH': 1}], timeout=900, thorough_override=dict(defines={'ROUNDS': 2, 'EXTRA': 1, 'MTX_WAIT_CLOSURE': MC}, timeout=3600),
+    desc='two tbb::mutex objects A, B sharing ONE address_waiter monitor (hash collision): TA asleep in A.lock() (older), TB asleep in B.lock(), built by forced first '
+         'slices of the real code; the owner unlocks B (WHICH 0) or A (WHICH 1), the other stays held. The sleeper of the released mutex must get it '
+         '(notify_by_address_one must pick a node of ITS address); the other sleeper legally stays parked',
+    bounds={'threads': 3, 'prefix': 'TA, TB run concretely until asleep', 'free_rounds': '1 (+2 extra owner/woken slice pairs) quick / 2 (+1) thorough', 'forced_rounds': 2, 'unroll': 1}),
   H(name='addr_rw_2t', unit='rw2', harness='h_rw.c', defines={'NT': 2, 'ROUNDS': 2}, tiers=['thorough'],
     scenarios=[{'OP0': 1, 'OP1': 4}, {'OP0': 0, 'OP1': 4}, {'OP0': 1, 'OP1': 5}, {'OP0': 0, 'OP1': 6}], timeout=7200,
     desc='tbb::rw_mutex through the REAL address_waiter.cpp: roles 0 reader, 1 writer, 4/5 thread starts as '
